@@ -520,31 +520,38 @@ end
 
 /-- what `prepare` computes, step by step -/
 theorem prepare_ok {pct : Bool} {st : Stmt} {call : Call} {p : Prepared} (h : prepare pct st call = .ok p) :
-    ∃ xs ys, mkConds (call.args.filterMap id) = .ok xs ∧ mkKw (sortKw call.kwargs) = .ok ys ∧
-      p.conj = (toWheres (xs ++ ys)).1 ∧ sqlText pct st p.conj = .ok p.text ∧
+    ∃ xs ys ord, mkConds (call.args.filterMap id) = .ok xs ∧
+      mkKw (sortKw (filterKwargs call.kwargs)) = .ok ys ∧
+      p.conj = (toWheres (xs ++ ys)).1 ∧ orderClause st call.kwargs = .ok ord ∧
+      sqlText pct { st with orderBy := ord } p.conj = .ok p.text ∧
       bindAll (toWheres (xs ++ ys)).2 = .ok p.params := by
   simp only [prepare, filters, bind, Except.bind] at h
   cases hx : mkConds (call.args.filterMap id) with
   | error err => simp [hx] at h
   | ok xs =>
-    cases hy : mkKw (sortKw call.kwargs) with
+    cases hy : mkKw (sortKw (filterKwargs call.kwargs)) with
     | error err => simp [hx, hy] at h
     | ok ys =>
       simp only [hx, hy, pure, Except.pure] at h
-      cases ht : sqlText pct st (toWheres (xs ++ ys)).1 with
-      | error err => simp [ht] at h
-      | ok text =>
-        cases hb : bindAll (toWheres (xs ++ ys)).2 with
-        | error err => simp [ht, hb] at h
-        | ok params =>
-          simp only [ht, hb, Except.ok.injEq] at h
-          subst h
-          exact ⟨xs, ys, rfl, rfl, rfl, ht, hb⟩
+      cases ho : orderClause st call.kwargs with
+      | error err => simp [ho] at h
+      | ok ord =>
+        simp only [ho] at h
+        cases ht : sqlText pct { st with orderBy := ord } (toWheres (xs ++ ys)).1 with
+        | error err => simp [ht] at h
+        | ok text =>
+          cases hb : bindAll (toWheres (xs ++ ys)).2 with
+          | error err => simp [ht, hb] at h
+          | ok params =>
+            simp only [ht, hb, Except.ok.injEq] at h
+            subst h
+            exact ⟨xs, ys, ord, rfl, rfl, rfl, rfl, ht, hb⟩
 
 theorem prepare_sem {pct : Bool} {st : Stmt} {call : Call} {p : Prepared} (h : prepare pct st call = .ok p)
     (row : Row) :
-    sem row p.conj p.params = andAll (intendeds row (call.args.filterMap id) ++ intendedKw row call.kwargs) := by
-  obtain ⟨xs, ys, hx, hy, hc, _, hb⟩ := prepare_ok h
+    sem row p.conj p.params =
+      andAll (intendeds row (call.args.filterMap id) ++ intendedKw row (filterKwargs call.kwargs)) := by
+  obtain ⟨xs, ys, _, hx, hy, hc, _, _, hb⟩ := prepare_ok h
   rw [toWheres_append] at hb hc
   obtain ⟨v1, v2, h1, h2, h3⟩ := bindAll_append_ok hb
   have hs := SemL.append Tri.and_assoc Tri.tt_and
@@ -553,8 +560,8 @@ theorem prepare_sem {pct : Bool} {st : Stmt} {call : Call} {p : Prepared} (h : p
   simp only [List.append_nil] at this
   unfold sem
   rw [semAnd_eq, hc, h3, this, optFold_and]
-  rw [andAll_congr (l' := intendeds row (call.args.filterMap id) ++ intendedKw row call.kwargs)]
-  · cases andAll (intendeds row (call.args.filterMap id) ++ intendedKw row call.kwargs) <;> rfl
+  rw [andAll_congr (l' := intendeds row (call.args.filterMap id) ++ intendedKw row (filterKwargs call.kwargs))]
+  · cases andAll (intendeds row (call.args.filterMap id) ++ intendedKw row (filterKwargs call.kwargs)) <;> rfl
   · intro x
     simp only [List.mem_append, mem_intendedKw_sort]
 
